@@ -414,6 +414,30 @@ Definition run_reqdec (a : sx) : sx :=
   | _ => sx_err "reqdec"
   end.
 
+(* c08.pktalloc: a stream (size field and little else) -> (outcome 'announced|'small): does ParsePacket
+   allocate the announced length?  'announced is reported for lengths of at least 256 KiB only *)
+Definition run_pktalloc (a : sx) : sx :=
+  match a with
+  | SBytes st =>
+      let cls := match parse_packet sha256 st with Ok _ => "ok" | Err _ => "err" | Panic _ => "panic" end in
+      SL [SA cls; SA (if N.leb (4 + 262144)%N (packet_prealloc st) then "announced" else "small")]
+  | _ => sx_err "pktalloc"
+  end.
+
+(* c08.limit: 'name -> the constant the model has for a limit that the implementation compares
+   an untrusted length with (the harness reads the implementation's from its source) *)
+Definition c08_limit (name : string) : option N :=
+  if String.eqb name "packet-min" then Some min_packet
+  else if String.eqb name "packet-max" then Some max_packet
+  else if String.eqb name "server-nonce-max" then Some max_server_nonce
+  else if String.eqb name "tl-prealloc-max" then Some max_prealloc
+  else None.
+Definition run_limit (a : sx) : sx :=
+  match a with
+  | SA name => match c08_limit name with Some n => SN n | None => sx_err "limit" end
+  | _ => sx_err "limit"
+  end.
+
 Definition run (name : string) (a : sx) : sx :=
   let is x := String.eqb name x in
   if is "c08.tl" then run_tl a
@@ -426,6 +450,8 @@ Definition run (name : string) (a : sx) : sx :=
   else if is "c08.answer2" then run_answer2 a
   else if is "c08.reader" then run_reader a
   else if is "c08.reqdec" then run_reqdec a
+  else if is "c08.pktalloc" then run_pktalloc a
+  else if is "c08.limit" then run_limit a
   else if is "c08.nonce" then run_nonce a
   else if is "c08.packet" then run_packet a
   else if is "c08.vmstack" then run_vmstack a
